@@ -6,7 +6,46 @@ import vlib, gen_nb, nbcfg
 from vlib import enc, dec, enc_diff, canon, plain, exc_class
 from checks import c02
 
-THEOREMS = c02.THEOREMS + ['Nbdime.join_splitLines']
+THEOREMS = ['Nbdime.C01_roundtrip_partial', 'Nbdime.diffAt_sound', 'Nbdime.singleOutputs_sound', 'Nbdime.mimeBundle_sound',
+            'Nbdime.attachmentsDiff_sound', 'Nbdime.cfgSound_of_B', 'Nbdime.pinnedNbCfg_sound', 'Nbdime.exNbOracle_ok',
+            'Nbdime.compat_pyEq', 'Nbdime.compat_ints'] + c02.THEOREMS + ['Nbdime.join_splitLines']
+
+
+def lean_differ(d):
+    if isinstance(d, str):
+        return '.' + d
+    return '(.ignoreKeys %s [%s])' % (lean_differ(d[1]), ', '.join(json.dumps(k) for k in d[2]))
+
+
+def lean_cfg(cfg):
+    """the extracted differ tables as a Lean `Cfg` literal"""
+    strs = lambda xs: '[' + ', '.join(json.dumps(x) for x in xs) + ']'
+    return ('{ predTable := [%s], predDefault := %s, predGuard := %s, differTable := [%s], differDefault := %s, atomicTable := [%s] }'
+            % (', '.join('(%s, %s)' % (json.dumps(k), strs(v)) for k, v in cfg['predTable']), strs(cfg['predDefault']), strs(cfg['predGuard']),
+               ', '.join('(%s, %s)' % (json.dumps(k), lean_differ(v)) for k, v in cfg['differTable']), lean_differ(cfg['differDefault']),
+               ', '.join('(%s, %s)' % (json.dumps(k), 'true' if v else 'false') for k, v in cfg['atomicTable'])))
+
+
+def table_obligation(ctx):
+    """hypothesis `cfgSoundB cfg` of C01_roundtrip_partial, discharged by the kernel for the tables diff_notebooks runs with NOW"""
+    try:
+        cfg = nbcfg.extract_cfg()
+    except nbcfg.UnknownTableEntry as e:
+        return 'table extraction: %s' % e
+    src = ('import NbdimeProofs\nopen Nbdime\n'
+           'def liveCfg : Cfg := %s\n'
+           'example : cfgSoundB liveCfg = true := by decide +kernel\n'
+           '/-- the theorem instantiated with the live tables -/\n'
+           'example (O : Oracle) (hO : OracleOK O) (a b : J) (d : List Op) (ca : a.canonical = true) (cb : b.canonical = true)\n'
+           '    (hab : Compat a b) (h : diffNotebooks O liveCfg a b = .ok d) : patch a d = .ok b :=\n'
+           '  C01_roundtrip_partial O hO liveCfg (by decide +kernel) a b d ca cb hab h\n' % lean_cfg(cfg))
+    ok, out = vlib.lean_run(src, 'C01_Tables.lean')
+    ctx.cov['obligations'] += 2
+    ctx.cov['extracted_tables'] = {'differTable': cfg['differTable'], 'predTable': [[k, len(v)] for k, v in cfg['predTable']]}
+    if ok:
+        ctx.cov['discharged'] += 2
+        return None
+    return out[-600:]
 
 
 def impl_diffnb(a, b):
@@ -76,6 +115,7 @@ def check_cases(ctx, cases, cfg=None, prop=None):
     for (stream, a, b, kinds), (r, memo) in zip(cases, impl):
         m_diff = next(replies) if cfg is not None else None
         ctx.count('stream:' + stream)
+        ctx.count('theorem-domain:Compat' if vlib.py_compat(a, b) else 'theorem-domain:outside (F-eq shape)')
         for k in kinds:
             if stream == 'generated':
                 ctx.count('edit:' + k)
@@ -152,10 +192,15 @@ def run(ctx):
                        'plus ordered pairs of the repository fixture notebooks, plus nbdiff --out/nbpatch CLI leg; '
                        'non-trivial = A and B serialise differently; distinct by typed canonical JSON of the pair')
     vlib.audit(ctx, 'NbdimeProofs', THEOREMS)
+    table_broken = table_obligation(ctx)
     cases = gen_cases(ctx)
     mismatches = check_cases(ctx, cases)
     cli_leg(ctx, 6 if ctx.tier == 'quick' else 120)
     ctx.cov['correspondence_mismatches'] = len(mismatches)
+    if table_broken and not ctx.violations:
+        ctx.violation('generated obligation cfgSoundB over the live differ tables (hypothesis of C01_roundtrip_partial) no longer checks: %s' % table_broken,
+                      {'kind': 'obligation', 'theorem': 'Nbdime.C01_roundtrip_partial / cfgSoundB (gen/C01_Tables.lean)', 'output': table_broken},
+                      found=False, classify=False)
     if mismatches and not ctx.violations:
         ctx.violation('correspondence NbdimeModel.diffNotebooks/patch <-> diff_notebooks/patch_notebook broken (%d cases); first: %s'
                       % (len(mismatches), json.dumps(mismatches[0])[:400]),
